@@ -395,6 +395,46 @@ def gen_case(r, idx, profile):
         elif w < 0.9:
             g.sn(disconnect(r.choice([0, d])), 2)
 
+    def collide_block():
+        """exchanges started by the two sides with the SAME message ID, overlapping in time"""
+        m = r.choice([1, 1, 2, 7, 65535])
+        bname = r.choice([b'ab', b'zz'])
+        cq = r.choice([1, 1, 2])
+        bq = r.choice([1, 2])
+        bpub = "publish dup=0 qos=%d retain=0 mid=%d topic=%s payload=%s" % (bq, m, H(bname), H(b'B'))
+        cpub = publish(2, 0x6162, m, b'C', cq)
+        steps = []
+        v = r.random()
+        if v < 0.45:
+            # broker exchange first, client exchange with the same ID inside it
+            steps = [('mq', bpub), ('sn', cpub)]
+        elif v < 0.8:
+            steps = [('sn', cpub), ('mq', bpub)]
+        else:
+            steps = [('sn', subscribe(m, r.choice([b'a/+', b'c/d']), 0, 0, 1)), ('mq', bpub)]
+            cq = 0
+        acks = []
+        if cq == 1:
+            acks.append(('mq', "puback %d" % m))
+        elif cq == 2:
+            acks += [('mq', "pubrec %d" % m), ('sn', pubrel(m)), ('mq', "pubcomp %d" % m)]
+        else:
+            acks.append(('mq', "suback mid=%d hq=0 codes=1" % m))
+        if bq == 1:
+            backs = [('sn', puback(0x6162 if len(bname) == 2 else 0, m, 0))]
+        else:
+            backs = [('sn', pubrec(m)), ('mq', "pubrel %d" % m), ('sn', pubcomp(m))]
+        # interleave the two acknowledgement chains, keeping each chain's order
+        while acks or backs:
+            if acks and (not backs or r.random() < 0.5):
+                steps.append(acks.pop(0))
+            else:
+                steps.append(backs.pop(0))
+        for kind, x in steps:
+            if r.random() < 0.08:
+                g.q += r.choice([rd // 100 + 1, 1])      # sometimes let a timer fire in between
+            g.sn(x) if kind == 'sn' else g.mq(x)
+
     def stray():
         v = r.random()
         if v < 0.2:
@@ -442,7 +482,9 @@ def gen_case(r, idx, profile):
                 break
             w = r.random()
             res = None
-            if w < 0.2:
+            if profile == 'collide' and w < 0.5:
+                collide_block()
+            elif w < 0.2:
                 client_publish()
             elif w < 0.32:
                 client_register()
@@ -484,7 +526,7 @@ def gen_case(r, idx, profile):
 def main():
     seed, n, profile = int(sys.argv[1]), int(sys.argv[2]), sys.argv[3]
     r = random.Random(seed * 1000003 + sum(profile.encode()) % 1000)  # (str hash is salted per process)
-    profiles = [profile] if profile != 'mix' else ['mix', 'mix', 'connect', 'ids', 'long']
+    profiles = [profile] if profile != 'mix' else ['mix', 'mix', 'connect', 'ids', 'long', 'collide']
     out = []
     for i in range(n):
         out.append(gen_case(r, i, r.choice(profiles)))
